@@ -40,7 +40,8 @@ def main():
             print(json.dumps(dict(error="patch does not apply", out=r.stdout.decode()[-800:])))
             return 2
         env = dict(os.environ)
-        env.update(VERIF_REPO=d, VERIF_BUILD=os.path.join(d, ".vbuild"), VERIF_SEED=str(args.seed))
+        env.update(VERIF_REPO=d, VERIF_BUILD=os.path.join(d, ".vbuild"), VERIF_SEED=str(args.seed),
+                   VERIF_EVIDENCE_DIR=os.path.join(d, ".evidence"))
         rc_all = 0
         for p in args.props.split(","):
             t0 = time.time()
